@@ -466,7 +466,7 @@ func C04(c *core.Ctx) {
 		j := (i*7919 + 13) % len(ms)
 		c.Sample(map[string]any{"cfg": ms[j].Cfg, "permitted": ms[j].Allowed, "method": cases[j].Method, "notations": cases[j].Notes, "types": cases[j].Decls})
 	}
-	c.Set("rule", "one destination field x one same/case-variant/differently named candidate (field, value-receiver getter, pointer-receiver getter) over all pairs of the 38-type alphabet x 2^4 toggles x match rule, enumerated by TLC (MatchField.tla) with the set of permitted outcomes; each is concretised, run through the tool and the projected outcome must be in the set. Non-trivial: permitted set is not {nomatch}; distinct by (types, candidate kind, toggles)")
+	c.Set("rule", "one destination field x one same/case-variant/differently named candidate (field, value-receiver getter, pointer-receiver getter) over all pairs of the 40-type alphabet x 2^4 toggles x match rule, enumerated by TLC (MatchField.tla) with the set of permitted outcomes; each is concretised, run through the tool and the projected outcome must be in the set. Non-trivial: permitted set is not {nomatch}; distinct by (types, candidate kind, toggles)")
 }
 
 // c16Static runs the slice cases of the one-field family (static side of C16).
@@ -478,6 +478,31 @@ func c16Static(c *core.Ctx) {
 	}
 	st := b1.Run(c, b1.Options{Name: "mfslice", PerFile: 80, Family: "matchfield-slices"}, cases, mfJudgeC16)
 	c.Set("static_slice_cases", st.Cases)
+	// the other side: pairs of slice types for which the specification permits NO copy (element types neither
+	// assignable nor - under :typecast - convertible): no element-wise statement may appear, whatever other
+	// toggles (:stringer ...) are on - elements are converted under :typecast only
+	isSlice := func(id string) bool { return id == "Tags" || strings.HasPrefix(universe.ExprOf(id), "[]") }
+	neg := mfEnumerate(c, 1, func(m *mfCase) bool { return isSlice(m.Cfg.Dt) && isSlice(m.Cfg.St) && !mfIsSlicePair(m) })
+	var ncases []*b1.Case
+	for i, m := range neg {
+		ncases = append(ncases, mfConcretise(i, m))
+	}
+	st2 := b1.Run(c, b1.Options{Name: "mfsliceneg", PerFile: 80, Family: "matchfield-slices"}, ncases, func(r *b1.Result) b1.Verdict {
+		m := r.Case.Data.(*mfCase)
+		v := b1.Verdict{Nontrivial: fmt.Sprintf("neg|%s|%s|%s|%v", m.Cfg.Dt, m.Cfg.St, m.Cfg.Ck, m.Cfg.Tg.Typecast)}
+		o, what, ok := mfObserve(r)
+		if !ok {
+			v.What = what
+			return v
+		}
+		if o.K == "slice" || (o.K != "nomatch" && !outcomeIn(o, m.Allowed)) {
+			v.What = fmt.Sprintf("%s: generated %s - the element types permit no copy here (typecast %v), the specification permits %s", mfDescribe(m), fmtAllowed([]outcome{o}), m.Cfg.Tg.Typecast, fmtAllowed(m.Allowed))
+			return v
+		}
+		v.OK = true
+		return v
+	})
+	c.Set("static_slice_cases_without_copy", st2.Cases)
 	if len(ms) > 0 {
 		j := len(ms) / 2
 		c.Sample(map[string]any{"cfg": ms[j].Cfg, "permitted": ms[j].Allowed, "types": cases[j].Decls})
